@@ -55,6 +55,25 @@ def adequacy(ctx, prop: str):
             continue
         if row.get(prop, {}).get("rc") == 1 and os.path.exists(patch):
             jobs.append(("seeded", seed, prop, patch))
+    # behaviour-preserving changes by independent sub-agents (/verif/benign): the ones made for this property, and the ones this
+    # property's check once alarmed on (selftest/round5_benign_first_contact.txt) -- as far as the check is on record as silent
+    # on them (selftest/benign_matrix.json); the ones it still alarms on are listed in DESIGN 11.11, not re-litigated here
+    bpath = os.path.join(st, "benign_matrix.json")
+    bmatrix = json.load(open(bpath)) if os.path.exists(bpath) else {}
+    once = set()
+    fc = os.path.join(st, "round5_benign_first_contact.txt")
+    if os.path.exists(fc):
+        for line in open(fc):
+            parts = line.split(None, 2)
+            if len(parts) == 3 and parts[1] == "ALARM" and f"'{prop}'" in parts[2]:
+                once.add(parts[0])
+    for bname, row in sorted(bmatrix.items()):
+        patch = os.path.join(VERIF, "benign", bname, "patch.diff")
+        mp = os.path.join(VERIF, "benign", bname, "meta.json")
+        if not os.path.exists(patch) or (os.path.exists(mp) and "retired" in json.load(open(mp))):
+            continue
+        if (bname.startswith(prop + "-") or bname in once) and row.get(prop, {}).get("rc") == 0:
+            jobs.append(("benign-patch", bname, prop, patch))
     res = {"caught": [], "failed_closed": [], "silent_benign": [], "stale": [], "lost": [], "false_alarm": []}
     workers = min(16, os.cpu_count() or 4)
     os.environ["SPVERIF_NESTED"] = "1"          # the sub-runs are quick runs of the same check on the scratch copies
@@ -63,7 +82,7 @@ def adequacy(ctx, prop: str):
             for kind, name, _p, rc, info in ex.map(R.one, jobs):
                 if rc == "BROKEN-VARIANT":
                     res["stale"].append(name)
-                elif kind == "benign":
+                elif kind in ("benign", "benign-patch"):
                     (res["silent_benign"] if rc == 0 else res["false_alarm"]).append(name if rc == 0 else f"{name} (exit {rc}: {info})")
                 elif rc == 1:
                     res["caught"].append(f"{name} {info}")
